@@ -112,32 +112,6 @@ theorem C15_jan1_safe (f : TBI) (hwf : WF f) (b : Bytes) (he : encode f = some b
       rw [decode_overwrite d w _ (by rw [hdl, headersize_eq]) hoff (by rw [hdn, hN, hmn, headersize_eq]; omega)]
       exact hdd
 
-def wideCols : List (Str × Nat) := List.replicate 62 ([97], 14)
-/-- 62 STRING16 columns in a 1D bucket: record length 3976 -/
-def wide : TBI := newTimeBucketInfo (fun t => if t = 14 then 64 else 0) 86400000000000 [68] 2020 wideCols 0
-def junk : Bytes := List.replicate 8 0 ++ List.replicate 3968 255
-
-set_option maxRecDepth 100000 in
-theorem wide_wf : WF wide := by
-  constructor <;> decide
-
-set_option maxRecDepth 100000 in
-theorem wide_recLen : wide.recordLength = 3976 := by decide
-
-set_option maxRecDepth 100000 in
-theorem wide_type0 : wide.types.head? = some 14 := by decide
-
-theorem junk_length : junk.length = 3976 := by
-  unfold junk; rw [List.length_append, List.length_replicate, List.length_replicate]
-
-theorem junk_drop : ∃ t, junk.drop 32 = 255 :: t := by
-  refine ⟨List.replicate 3943 255, ?_⟩
-  have : junk.drop 32 = List.replicate (3943 + 1) 255 := by
-    unfold junk
-    rw [List.drop_append, List.length_replicate, List.drop_replicate, List.drop_replicate]
-    rfl
-  rw [this, List.replicate_succ]
-
 /-- the January-1 record of a wide daily bucket overwrites the element types: after the write the
     header no longer decodes to the schema (reproduced: corpus/C15/known_F1_jan1.ops) -/
 theorem C15_cex_jan1 : ∃ b, encode wide = some b ∧ junk.length ≤ wide.recordLength ∧
